@@ -453,7 +453,7 @@ def run(res):
         'os.waitpid, the sentinel wait and os.getpid are oracles (any answer sequence); the kernel reports exit(n) as '
         '(n mod 256)<<8 and death by signal s as s (+128 with core) -- Lib/ExitStatusWait.v, compared with os.W* on all '
         '65536 statuses on every run',
-        'join(timeout) returning within the timeout is kernel behaviour: sampled on real children (bound 2 s for a 20 ms '
+        'join(timeout) returning within the timeout is kernel behaviour: sampled on real children (bound 5 s for a 20 ms '
         'timeout), not proved; proved instead: a timed join whose sentinel is not ready performs no waitpid call',
         'process objects are not shared between threads (no interleaving inside poll/join/_cleanup is modelled)',
         'exit codes outside a C int under fork are excluded (os._exit raises OverflowError in the child, which then '
